@@ -1,7 +1,8 @@
 """C05 — pipeline property decided by the Lean oracle on generated crystals (see checks/pipe.py)."""
 from checks import pipe
 
-PROPS = [("Moyo.Props.C05", "Moyo/Props/C05.lean"), ("Moyo.Props.C05Stages", "Moyo/Props/C05Stages.lean")]
+PROPS = [("Moyo.Props.C05", "Moyo/Props/C05.lean"), ("Moyo.Props.C05Stages", "Moyo/Props/C05Stages.lean"),
+         ("Moyo.Props.C05Glue", "Moyo/Props/C05Glue.lean")]
 
 
 def nontrivial(p, line):
@@ -11,7 +12,7 @@ def nontrivial(p, line):
 def run(tier, seed):
     return pipe.run_property("C05", tier, seed, ['hall', 'super', 'noise', 'lowsym'], PROPS,
                              {"rule": 'every Hall setting (own + re-based/shifted/rotated), supercells, noisy twins; non-trivial when a dataset was returned for a re-described input (origin shift always on)'},
-                             nontrivial, stages=["s6", "s7"],
+                             nontrivial, stages=["s6", "s7", "s9"],
                              trusted=["premise validation of the generator (the generated crystal has exactly the generating group, symmetry gap >= 0.2 A) is a brute-force search in Rust, independent of moyo",
                                       "f64 rounding inside moyo is not modelled: the oracle judges the returned values in exact rational arithmetic",
                                       "the oracle's float code only orders candidate sites; every verdict is an exact test (Proofs/OracleSite.lean)"])
